@@ -105,7 +105,13 @@ func (t *Ticket) Unmarshal(b []byte) error {
 
 // Marshal the Ticket.
 func (t *Ticket) Marshal() ([]byte, error) {
-	b, err := asn1.Marshal(*t)
+	// Only the fields that are part of the ASN1 definition are marshaled, never the decrypted part.
+	b, err := asn1.Marshal(Ticket{
+		TktVNO:  t.TktVNO,
+		Realm:   t.Realm,
+		SName:   t.SName,
+		EncPart: t.EncPart,
+	})
 	if err != nil {
 		return nil, err
 	}
